@@ -166,6 +166,7 @@ fn run(
     ops: &[Op],
     scratch: &Scratch,
     scan_stats: &mut ScanStats,
+    dedupe: bool,
 ) -> RunOutcome {
     scratch.clear();
     let dir = scratch.sub("db");
@@ -255,12 +256,28 @@ fn run(
     match plan.prop.as_str() {
         "C01" => findings.extend(storecheck::check_point_reads(&st)),
         "C03" => {
+            // the program tree is only walked once per distinct read signature
+            static SEEN: std::sync::Mutex<Option<HashSet<u64>>> = std::sync::Mutex::new(None);
+            let fresh = match st.read_signature() {
+                Ok(h) => SEEN
+                    .lock()
+                    .unwrap()
+                    .get_or_insert_with(HashSet::new)
+                    .insert(vcore::stable_hash(&(h, &cfg.name))),
+                Err(_) => true,
+            };
+            scan_stats.leaves += 1;
+            if fresh {
+                scan_stats.distinct_read_states += 1;
+            }
+            if fresh || !dedupe {
             findings.extend(storecheck::check_scans(
                 &st,
                 plan.scan_len_full,
                 plan.scan_len_rest,
                 scan_stats,
             ));
+            }
         }
         "C04" => {
             findings.extend(storecheck::check_setsums(&st));
@@ -348,7 +365,7 @@ fn explore(
     rep: &mut Report,
     scan_stats: &mut ScanStats,
 ) {
-    let out = run(plan, &item.cfg, &item.seed, ops, scratch, scan_stats);
+    let out = run(plan, &item.cfg, &item.seed, ops, scratch, scan_stats, true);
     rep.evaluations += 1;
     rep.transitions += (item.seed.len() + ops.len()) as u64;
     rep.traces_validated += 1;
@@ -391,7 +408,7 @@ fn explore(
     }
     for (sig, detail) in out.findings.iter() {
         // replay before report
-        let again = run(plan, &item.cfg, &item.seed, ops, scratch, scan_stats);
+        let again = run(plan, &item.cfg, &item.seed, ops, scratch, scan_stats, false);
         if !again.findings.iter().any(|(s, _)| s == sig) {
             rep.count("non_reproducible_findings", 1);
             continue;
@@ -444,7 +461,7 @@ fn minimise(
     while i < ops.len() {
         let mut cand = ops.clone();
         cand.remove(i);
-        let out = run(plan, cfg, &[], &cand, scratch, scan_stats);
+        let out = run(plan, cfg, &[], &cand, scratch, scan_stats, false);
         if out.findings.iter().any(|(s, _)| s == sig) {
             ops = cand;
         } else {
@@ -523,6 +540,8 @@ fn main() {
         let mut scan_stats = ScanStats {
             programs: 0,
             calls: 0,
+            leaves: 0,
+            distinct_read_states: 0,
             outcomes: HashSet::new(),
         };
         let mut p = plan_ref.clone();
@@ -536,6 +555,8 @@ fn main() {
         }
         explore(&p, item, &mut ops, &scratch, rep, &mut scan_stats);
         rep.count("cursor_programs", scan_stats.programs);
+        rep.count("scan_leaves", scan_stats.leaves);
+        rep.count("scan_distinct_read_states", scan_stats.distinct_read_states);
         rep.count("cursor_calls", scan_stats.calls);
         rep.outcomes.extend(scan_stats.outcomes);
     });
@@ -574,6 +595,8 @@ fn replay(rf: &vcore::Value) {
     let mut ss = ScanStats {
         programs: 0,
         calls: 0,
+        leaves: 0,
+        distinct_read_states: 0,
         outcomes: HashSet::new(),
     };
     println!(
@@ -582,7 +605,7 @@ fn replay(rf: &vcore::Value) {
         cfg.name,
         ops.iter().map(|o| o.name()).collect::<Vec<_>>()
     );
-    let out = run(&plan, &cfg, &[], &ops, &scratch, &mut ss);
+    let out = run(&plan, &cfg, &[], &ops, &scratch, &mut ss, false);
     let want = rf["signature"].as_str().unwrap_or("");
     let mut hit = false;
     for (sig, detail) in out.findings.iter() {
